@@ -336,3 +336,12 @@ package sqlite
 //@ requires cmd != nil
 //@ ensures err != nil ==> result == nil
 //@ ensures err == nil ==> result != nil
+
+// The database is opened on exactly the configured path with the driver's default durability settings: no
+// pragma in the connection string weakens journalling or synchronisation (C06: what was acknowledged
+// survives a kill only because the engine's defaults are left alone).
+//@ func New
+//@ props C06 C16
+//@ nopanic C13
+//@ requires config != nil
+//@ site call Open assert driverName == "sqlite3" && dataSourceName == config.Path
